@@ -260,7 +260,7 @@ def _window_job(job):
                     bad = ("reference list does not hold exactly the bound pids", step)
                     return False
                 # retrieved: the target, its neighbours and the first / last lines (every pid's LINE is compared above)
-                probe = [p_ for p_ in bound if p_ == target or p_.startswith("tail") or p_ == "a"] + fill[:1] + fill[-2:]
+                probe = [p_ for p_ in bound if target in p_ or p_.startswith("tail") or p_ == "a"] + fill[:1] + fill[-2:]
                 for p_ in probe:
                     if p_ not in bound:
                         continue
@@ -293,7 +293,12 @@ def _window_job(job):
                     ("delete a (the target's line moves to the offset under test)", lambda: store.delete_object("a"), "a", False),
                     ("delete tail 1", lambda: store.delete_object("tail-1" + unit), "tail-1" + unit, False),
                     ("delete target", lambda: store.delete_object(target), target, False),
-                    ("tag target again (now last line)", lambda: store.tag_object(target, cid), target, True)]
+                    ("tag target again (now last line)", lambda: store.tag_object(target, cid), target, True),
+                    # in a list of this length: a pid that is a proper SUFFIX of the last line, and one that is a proper PREFIX of it
+                    ("tag holder (last line)", lambda: store.tag_object("holder/" + target + "/v1", cid), "holder/" + target + "/v1", True),
+                    ("tag a suffix of the last line", lambda: store.tag_object(target + "/v1", cid), target + "/v1", True),
+                    ("tag a prefix of an earlier line", lambda: store.tag_object("holder/" + target, cid), "holder/" + target, True),
+                    ("delete holder", lambda: store.delete_object("holder/" + target + "/v1"), "holder/" + target + "/v1", False)]
             ok = True
             for step, fn, pid, add in seq:
                 if not do(step, fn, pid, add):
